@@ -5,9 +5,9 @@ import (
 	"fmt"
 	"go/token"
 	"go/types"
+	"math/big"
 	"os"
 	"os/exec"
-	"math/big"
 	"path/filepath"
 	"regexp"
 	"sort"
@@ -1183,7 +1183,7 @@ func (c *Ctx) recursionGates(fns []*ssa.Function, reach map[*ssa.Function]bool) 
 				target := e.site.Block()
 				var depthGate *ssa.BasicBlock
 				eachInstr(ia.executeOne, func(ins ssa.Instruction) {
-					if st, ok := ins.(*ssa.Store); ok && isFieldAddr(st.Addr, ia.T, "execStackDepth") {
+					if st, ok := ins.(*ssa.Store); ok && isFieldAddr(st.Addr, ia.T, c.fld("intp.execDepth")) {
 						if bo, ok := st.Val.(*ssa.BinOp); ok && bo.Op == token.ADD {
 							depthGate = st.Block()
 						}
@@ -1215,9 +1215,9 @@ func (c *Ctx) recursionGates(fns []*ssa.Function, reach map[*ssa.Function]bool) 
 			// nesting depth of procedure objects: literals are limited by the procStart gate, dynamic construction by the budget
 			okGate := false
 			eachInstr(ia.executeOne, func(ins ssa.Instruction) {
-				if st, ok := ins.(*ssa.Store); ok && isFieldAddr(st.Addr, ia.T, "procStart") {
+				if st, ok := ins.(*ssa.Store); ok && isFieldAddr(st.Addr, ia.T, c.fld("intp.procStart")) {
 					if _, isCall := st.Val.(*ssa.Call); isCall {
-						if k, ok := upperBoundConst(domConds(st.Block()), func(v ssa.Value) bool { return lenOfField(v, ia.T, "procStart") }); ok && k <= 10000 {
+						if k, ok := upperBoundConst(domConds(st.Block()), func(v ssa.Value) bool { return lenOfField(v, ia.T, c.fld("intp.procStart")) }); ok && k <= 10000 {
 							okGate = true
 						}
 					}
